@@ -1,4 +1,4 @@
-pub const BUILD_MAX_LEVELS: usize = 6;
-pub const BUILD_TREE_HEIGHTS: &[u32] = &[10, 25, 10, 15, 10, 25];
-pub const BUILD_MIN_W: &[u32] = &[8, 4, 8, 2, 8, 8];
+pub const BUILD_MAX_LEVELS: usize = 2;
+pub const BUILD_TREE_HEIGHTS: &[u32] = &[20, 10];
+pub const BUILD_MIN_W: &[u32] = &[1, 4];
 pub const BUILD_IS_DEFAULT: bool = false;
